@@ -31,6 +31,36 @@ fn sod_regex(s: &StaticOrDynamic) -> (bool, String) {
 }
 fn parse_dt(s: &str) -> NaiveDateTime { s.parse::<DateTime<Utc>>().unwrap().naive_utc() }
 
+/// the Rule JSON that should translate to the same route, when the rule format can express it
+fn spec_to_rule(spec: &Spec) -> Option<Value> {
+    let j = &spec.j;
+    let mut markers: Vec<(String, String)> = Vec::new();
+    let mut sod_str = |v: &Value| -> Option<String> {
+        if let Some(s) = v.get("s") { return Some(s.as_str().unwrap().to_string()); }
+        for m in v["m"].as_array().unwrap() {
+            let (n, r) = (m[0].as_str().unwrap().to_string(), m[1].as_str().unwrap().to_string());
+            if let Some((_, r0)) = markers.iter().find(|(n0, _)| *n0 == n) { if *r0 != r { return None; } } else { markers.push((n, r)); }
+        }
+        Some(v["t"].as_str().unwrap().to_string())
+    };
+    let host: Value = if j["host"].is_null() { Value::Null } else { json!(sod_str(&j["host"])?) };
+    let path = sod_str(&j["path"])?;
+    if path.contains('?') || path.contains(' ') { return None; }
+    let mut headers = Vec::new();
+    for h in j["headers"].as_array().unwrap() {
+        if h["kind"] == "match_regex" { return None; }
+        let needs_value = h["kind"] != "is_defined" && h["kind"] != "is_not_defined";
+        headers.push(json!({"type": h["kind"], "name": h["name"], "value": if needs_value { h["value"].clone() } else { Value::Null }}));
+    }
+    let ips: Value = match j["ips"].as_array() { None => Value::Null, Some(a) => json!(a.iter().map(|ip| if ip["in"] == json!(true) { json!({"in_range": ip["cidr"]}) } else { json!({"not_in_range": ip["cidr"]}) }).collect::<Vec<_>>()) };
+    if j["scheme"] == json!("") || j["host"].get("s") == Some(&json!("")) { return None; }
+    Some(json!({"id": j["id"], "rank": j["rank"], "status_code": 301, "target": "/t",
+        "source": {"scheme": j["scheme"], "host": host, "path": path, "methods": j["methods"], "exclude_methods": j["excl"],
+                   "headers": if headers.is_empty() { Value::Null } else { json!(headers) }, "ips": ips,
+                   "datetime": j["dt"], "time": j["time"], "weekdays": j["wd"]},
+        "markers": markers.iter().map(|(n, r)| json!({"name": n, "regex": r})).collect::<Vec<_>>()}))
+}
+
 struct Built { route: Route<Spec>, coq: String }
 
 fn build_route(spec: &Spec, cfg: &RouterConfig) -> Built {
@@ -241,9 +271,31 @@ pub fn run_case(id: usize, input: &Value) {
             }
             obs.push(one);
         }
-        (built, probes.into_iter().map(|p| p.1).collect::<Vec<String>>(), obs)
+        // the same routes given as Rule JSON and translated by the crate itself (<Rule as IntoRoute>::into_route): the glue
+        // between the agent's rule format and Route::new (ip ranges, date/time windows, method lists, header conditions)
+        let only_inserts = inp["ops"].as_array().unwrap().iter().all(|o| o["op"] == "ins");
+        let mut twin: Option<bool> = None;
+        if only_inserts && !cfg2.ignore_host_case && !cfg2.ignore_path_and_query_case {
+            let inserted: Vec<usize> = inp["ops"].as_array().unwrap().iter().map(|o| o["r"].as_u64().unwrap() as usize).collect();
+            // the expressible subset, through both constructors
+            let pairs: Vec<(usize, Value)> = inserted.iter().filter_map(|i| spec_to_rule(&specs2[*i]).map(|r| (*i, r))).collect();
+            if !pairs.is_empty() {
+                let mut rr = Router::<redirectionio::api::Rule>::from_config(cfg2.clone());
+                let mut rs = Router::<Spec>::from_config(cfg2.clone());
+                for (i, r) in &pairs { rr.insert(serde_json::from_value::<redirectionio::api::Rule>(r.clone()).expect("twin rule")); rs.insert(specs2[*i].clone()); }
+                let mut same = true;
+                for (k, (req, _)) in probes.iter().enumerate() {
+                    let mut a: Vec<String> = rr.match_request(req).iter().map(|r| r.id().to_string()).collect(); a.sort();
+                    let mut b: Vec<String> = rs.match_request(req).iter().map(|r| r.id().to_string()).collect(); b.sort();
+                    if a != b { same = false; eprintln!("twin differs on probe {}: rule router {:?} vs route router {:?}", k, a, b); }
+                }
+                twin = Some(same);
+            }
+        }
+        if twin == Some(false) { obs.push(vec![vec![9, 9, 9]]); } // one observation more than operations: both verdict bits flag it
+        (built, probes.into_iter().map(|p| p.1).collect::<Vec<String>>(), obs, twin)
     });
-    let (built, probes, obs) = match res {
+    let (built, probes, obs, twin) = match res {
         Ok(x) => x,
         Err(e) => { emit(id, "", input.clone(), &["panic".to_string()], false, json!({"panic": e})); return; }
     };
@@ -259,6 +311,7 @@ pub fn run_case(id: usize, input: &Value) {
         cq_list(ops, |o| cq_op(o, &built, &specs)), probes.join("; "),
         cq_list(&obs, |one| cq_list(one, |l| cq_list(l, |x| x.to_string()))));
     let mut tags: Vec<String> = Vec::new();
+    match twin { Some(true) => tags.push("rule-twin:same".into()), Some(false) => tags.push("rule-twin:DIFFERS".into()), None => {} }
     fn op_tags(ops: &[Value], tags: &mut Vec<String>) { for o in ops { tags.push(format!("op:{}", o["op"].as_str().unwrap())); if let Some(inner) = o["ops"].as_array() { op_tags(inner, tags); } } }
     op_tags(ops, &mut tags);
     for r in input["routes"].as_array().unwrap() {
@@ -275,7 +328,7 @@ pub fn run_case(id: usize, input: &Value) {
     let nprobes = input["probes"].as_array().unwrap().len();
     let stride = if with_trace { 3 } else { 1 };
     let mut sizes: BTreeSet<usize> = BTreeSet::new();
-    for one in &obs { for i in 0..nprobes { sizes.insert(one[1 + i * stride].len()); } }
+    for one in &obs { if one.len() > nprobes * stride { for i in 0..nprobes { sizes.insert(one[1 + i * stride].len()); } } }
     let maxlen = obs.iter().map(|o| o[0][0]).max().unwrap_or(0) as usize;
     let nontrivial = sizes.len() >= 2 && sizes.iter().any(|s| *s > 0 && *s < maxlen.max(1));
     emit(id, &coq, input.clone(), &tags, nontrivial, json!({"last_obs": obs.last()}));
@@ -363,6 +416,28 @@ fn header_focus(rng: &mut Rng, routes: &mut Vec<Value>, probes: &mut Vec<Value>)
     }
 }
 
+/// one trigger kind at a time: every route keeps only that trigger (and the path /x), every probe asks for /x, so that
+/// the outcome is decided by that trigger alone (method lists and exclusion, ip ranges, date/time windows, weekdays, scheme, host)
+fn trigger_focus(rng: &mut Rng, routes: &mut Vec<Value>, probes: &mut Vec<Value>) {
+    let kind = *rng.pick(&["methods", "ips", "dt", "time", "wd", "scheme", "host"]);
+    for r in routes.iter_mut() {
+        let fresh = gen_route(rng, "tmp");
+        for k in ["methods", "excl", "ips", "dt", "time", "wd", "scheme", "host"] { r[k] = Value::Null; }
+        r["headers"] = json!([]);
+        r["path"] = json!({"s": "/x"});
+        match kind {
+            "methods" => { r["methods"] = match rng.below(4) { 0 => json!(["GET"]), 1 => json!(["GET", "POST"]), 2 => json!(["PUT"]), _ => json!([*rng.pick(METHODS)]) }; r["excl"] = match rng.below(3) { 0 => json!(true), 1 => json!(false), _ => Value::Null }; }
+            "ips" => { let n = 1 + rng.below(2); let mut used: Vec<&str> = Vec::new(); let mut v = Vec::new(); for _ in 0..n { let c = *rng.pick(CIDRS); if used.contains(&c) { continue; } used.push(c); v.push(json!({"in": rng.chance(2, 3), "cidr": c})); } r["ips"] = json!(v); }
+            "dt" => { let a = rng.below(TIMES.len()); let b = rng.below(TIMES.len()); r["dt"] = json!([[if rng.chance(3, 4) { json!(TIMES[a.min(b)]) } else { Value::Null }, if rng.chance(3, 4) { json!(TIMES[a.max(b)]) } else { Value::Null }]]); }
+            "time" => { r["time"] = if rng.chance(1, 3) { json!([["09:00:00", "11:00:00"], ["22:00:00", "23:59:59"]]) } else { json!([[*rng.pick(&["09:00:00", "10:00:00", "00:00:00"]), *rng.pick(&["10:00:00", "12:00:00", "23:59:59"])]]) }; }
+            "wd" => { r["wd"] = json!([*rng.pick(DAYS), *rng.pick(DAYS)]); }
+            "scheme" => { r["scheme"] = fresh["scheme"].clone(); }
+            _ => { r["host"] = fresh["host"].clone(); }
+        }
+    }
+    for p in probes.iter_mut() { p["path"] = json!("/x"); if p["time"].is_null() && (kind == "dt" || kind == "time" || kind == "wd") { p["time"] = json!(*rng.pick(TIMES)); } if p["addr"].is_null() && kind == "ips" && rng.chance(3, 4) { p["addr"] = json!(*rng.pick(ADDRS)); } }
+}
+
 /// C01: build only, then probe
 pub fn gen_case_c01(rng: &mut Rng, trace: bool) -> Value {
     let n = 1 + rng.below(10);
@@ -370,7 +445,7 @@ pub fn gen_case_c01(rng: &mut Rng, trace: bool) -> Value {
     let ops: Vec<Value> = (0..n).map(|i| json!({"op": "ins", "r": i})).collect();
     let mut routes = routes;
     let mut probes: Vec<Value> = (0..4).map(|_| gen_probe(rng)).collect();
-    if rng.chance(1, 3) { header_focus(rng, &mut routes, &mut probes); }
+    match rng.below(6) { 0 | 1 => header_focus(rng, &mut routes, &mut probes), 2 | 3 => trigger_focus(rng, &mut routes, &mut probes), _ => {} }
     // observe only at the end: keep a single observation by making every op but the last invisible is not possible, so observe all
     json!({"cfg": gen_cfg(rng), "routes": routes, "ops": ops, "probes": probes, "trace": trace})
 }
